@@ -34,7 +34,7 @@ GATES = ("reuse.cached", "reuse.memo", "worlds.scaled", "worlds.offset_rows", "w
 
 
 def generate(rng, seed, index, tier):
-    fam = str(rng.choice(["qp", "nlp", "degenerate", "domain", "saddle"], p=[0.45, 0.33, 0.09, 0.05, 0.08]))
+    fam = str(rng.choice(["qp", "nlp", "degenerate", "domain", "saddle"], p=[0.4, 0.3, 0.09, 0.05, 0.16]))
     spec, x0, y0 = gen.gen_problem(rng, fam)
     kw = gen.gen_params(rng, spec, x0, y0, p_knob=0.45, reporting=False, scaling=False, numeric=0.15)
     # aliasing bugs live in one formulation each: sweep step solvers and Newton types uniformly
